@@ -80,7 +80,7 @@ CpWidth(c) ==
   ELSE IF c >= 19968 /\ c <= 40959 THEN 2                  \* CJK unified ideographs
   ELSE IF c >= 65281 /\ c <= 65376 THEN 2                  \* fullwidth forms
   ELSE IF c >= 128512 /\ c <= 128591 THEN 2                \* emoticons
-  ELSE IF c = 9733 \/ c = 65533 THEN 1                     \* BLACK STAR (ambiguous), U+FFFD
+  ELSE IF c = 9733 \/ c = 9734 \/ c = 65533 THEN 1         \* BLACK / WHITE STAR (ambiguous), U+FFFD
   ELSE -1
 
 RECURSIVE WidthFrom(_, _, _)
@@ -304,7 +304,9 @@ RECURSIVE PipeRun(_, _, _, _, _, _)
 PipeRun(d, vals, nv, err, cb, N) ==
   LET done == NumComplete(vals, 1, d.rp, d.eof) IN
   IF d.k < nv /\ done > d.k THEN                      \* Decode returns value k+1; Next() checks the window
-    PipeRun(AfterValue([d EXCEPT !.k = d.k + 1], ValEnd(vals, d.k + 1)), vals, nv, err, cb, N)
+    IF d.rp - d.ws < THRESH
+    THEN PipeRun([d EXCEPT !.k = done], vals, nv, err, cb, N)     \* no reset while the buffered values are returned
+    ELSE PipeRun(AfterValue([d EXCEPT !.k = d.k + 1], ValEnd(vals, d.k + 1)), vals, nv, err, cb, N)
   ELSE IF d.k = nv /\ err.k = "syntax" /\ err.p < d.rp THEN d       \* the scanner steps on the offending byte
   ELSE IF d.eof THEN d                                              \* io.ErrUnexpectedEOF (or a clean EOF)
   ELSE LET scanp == ValEnd(vals, d.k)
